@@ -74,7 +74,10 @@ NumCases ==
         C("format_time", <<Num(D(0))>>), C("format_time", <<Num(D(59))>>), C("format_time", <<Num(D(60))>>), C("format_time", <<Num(D(3725))>>),
         C("format_time", <<Num(D(86399))>>), C("format_time", <<Num(D(86400))>>), C("format_time", <<Num(D(90061))>>), C("format_time", <<Num(D(31536000))>>),
         C("format_time", <<L(<<"x">>)>>), C("format_time", <<Num(Frac)>>), C("format_time", <<Num(Neg(5))>>) >>
-Dates == <<Date1, Date2, Date3, Stamp>>
+(* wall-clock times that the zone of the second run (Europe/Berlin) skips in spring and repeats in autumn: texts like any other for the date-part functions *)
+Gap == <<"2","0","2","4","-","0","3","-","3","1"," ","0","2",":","3","0",":","0","0">>
+Overlap == <<"2","0","2","4","-","1","0","-","2","7"," ","0","2",":","3","0",":","0","0">>
+Dates == <<Date1, Date2, Date3, Stamp, Gap, Overlap>>
 DateCases == Unary("year", Dates) \o Unary("month", Dates) \o Unary("day", Dates) \o Unary("dow", Dates)
              \o << C("year", <<L(<<"r","e","p","-","2","0","2","3","-","1","2","-","3","1",".","t","x","t">>)>>), C("day", <<L(<<"d","u","e"," ","2","0","2","4","-","0","2","-","2","9">>)>>),
                     C("month", <<L(<<"2","0","1","7","-","0","5","-","0","1","x">>)>>), C("dow", <<L(<<"x","2","0","1","7","-","0","5","-","0","1">>)>>) >>
@@ -105,10 +108,12 @@ FN(i, nm, sz) == [id |-> i, parent |-> 0, kind |-> "file", namec |-> nm, name |-
 W16 == [nodes |-> << FN(1, <<"a","b","c",".","t","x","t">>, 0 + 25), FN(2, <<"ż","ó","ł","ć",".","T","X","T">>, 1024),
                      FN(3, <<"a"," ","b">>, 2), FN(4, <<"h","E","l","l","o"," ","w","O","R","L","D">>, 3725), FN(5, <<"2","0","1","7","-","0","5","-","0","1">>, 7) >>]
 
-VARIABLES idx, phase
-Init == idx = 0 /\ phase = "start"
+VARIABLES idx, zone, phase
+Init == idx = 0 /\ zone = "UTC" /\ phase = "start"
+(* the date-part functions are also run in a zone with daylight saving time: their value is read off the text and must not depend on the zone *)
 Next == phase = "start" /\ idx' \in 1 .. Len(Cases) /\ phase' = "done"
-Spec == Init /\ [][Next]_<<idx, phase>>
+        /\ zone' \in (IF Cases[idx'].fn \in {"year", "month", "day", "dow"} THEN {"UTC", "Europe/Berlin"} ELSE {"UTC"})
+Spec == Init /\ [][Next]_<<idx, zone, phase>>
 
 RECURSIVE ArgText(_), ArgsText(_, _), UsesCol(_), Depth(_), HasEmpty(_)
 Quote(c) == IF HasChar(c, "'") THEN "\"" \o Str(c) \o "\"" ELSE "'" \o Str(c) \o "'"
@@ -123,9 +128,9 @@ Depth(a) == IF a.t # "call" THEN 0 ELSE 1 + (IF a.args = <<>> THEN 0 ELSE CHOOSE
 Case == Cases[idx]
 Scenario == [prop |-> "C16", world |-> "W16",
              class |-> Case.fn \o (IF UsesCol(Case) THEN "/column" ELSE "/literal") \o (IF Depth(Case) > 1 THEN "/nested" ELSE "")
-                       \o (IF HasEmpty(Case) THEN "/empty-literal" ELSE ""),
+                       \o (IF HasEmpty(Case) THEN "/empty-literal" ELSE "") \o (IF zone = "UTC" THEN "" ELSE "/dst-zone"),
              call |-> Case, oncol |-> UsesCol(Case),
-             env |-> [tz |-> "UTC", cwd |-> 0],
+             env |-> [tz |-> zone, cwd |-> 0],
              runs |-> << [tag |-> "q", ncols |-> IF UsesCol(Case) THEN 2 ELSE 1, chars |-> TRUE,
                           argv |-> << IF UsesCol(Case) THEN "select name, " \o ArgText(Case) \o " from '.' into list"
                                       ELSE "select " \o ArgText(Case) \o " into list" >>] >>]
